@@ -675,6 +675,8 @@ class RunGen:
         self.fresh = 0
         self.mixed = 0            # assignments of a narrower kind into a wider variable
         self.calls = 0
+        self.mixed_ifexp = 0
+        self.augs = 0
         self.used_funcs = set()
 
     def newname(self, prefix="v"):
@@ -698,8 +700,14 @@ class RunGen:
             return f"abs({self.int_e(d - 1, rd)} - 7)"
         if r < 0.75:
             return f"{rng.choice(['min', 'max'])}({self.int_e(d - 1, rd)}, {self.int_e(d - 1, rd)})"
-        if r < 0.87:
+        if r < 0.83:
             return f"({self.int_e(d - 1, rd)} if {self.bool_e(d - 1, rd)} else {self.int_e(d - 1, rd)})"
+        if r < 0.90:                                      # the bool/int join of a conditional expression, both orders
+            a, b = self.bool_e(d - 1, rd), self.int_e(d - 1, rd)
+            if rng.random() < 0.5:
+                a, b = b, a
+            self.mixed_ifexp += 1
+            return f"({a} if {self.bool_e(d - 1, rd)} else {b})"
         return f"int({self.float_e(d - 1, rd)})"
 
     def float_e(self, d, rd):
@@ -807,6 +815,11 @@ class RunGen:
             st["known"].add(x)
             if nested:
                 st["nested_names"].add(x)
+        if (x in st["assigned"] and x in st["label_ok"] and K in ("int", "float") and rng.random() < 0.25):
+            # x op= e keeps the label of x: float op anything numeric is float, int op int/bool is int
+            ek = rng.choice(["int", "bool"] if K == "int" else ["int", "float", "bool"])
+            self.augs += 1
+            return [("aug", x, rng.choice(["+", "-", "*"]), self.expr(ek, rng.choice([0, 1]), rd)), ("write", x)]
         src = None
         if K != "str" and rng.random() < 0.22:
             c = self.call_e(rd, k, exact=(K == k))
@@ -1009,6 +1022,8 @@ def part_c(ctx, stats):
     stats["value_programs"] = {"programs": n, "by_status": st, "values_compared": values,
                                "assignments_of_a_narrower_kind_into_a_wider_variable": sum(g.mixed for g in gens),
                                "helper_calls": sum(g.calls for g in gens),
+                               "augmented_assignments": sum(g.augs for g in gens),
+                               "bool_int_conditional_expressions": sum(g.mixed_ifexp for g in gens),
                                "programs_with_main_loop": sum(1 for l in loops if l)}
     stats["value_distinct_nontrivial"] = len(nontrivial)
     # known findings: replay every listed witness on the real code
@@ -1040,7 +1055,8 @@ def part_d(ctx, stats):
     inputs = ["" for _ in progs]
     res = run_value_pairs(srcs, inputs, loops)
     st, values, nontrivial, undefined = {}, 0, set(), {}
-    for k, (src, l, r) in enumerate(zip(srcs, loops, res)):
+    rows = sorted(enumerate(zip(srcs, loops, res)), key=lambda kr: (kr[1][2]["status"] != "DIFF", len(kr[1][0])))
+    for k, (src, l, r) in rows:                              # failing scripts shortest first: the replay is the smallest one
         st[r["status"]] = st.get(r["status"], 0) + 1
         case = {"script": src, "input": "", "loops": l}
         if r["status"] == "DIFF":
